@@ -239,7 +239,7 @@ Section Refine.
   Proof.
     intros HR. unfold Model.step, Spec.sstep. destruct (pcl l) as [|j acc]; [intros H; inversion H; subst; eauto|].
     destruct (todo l) as [|o rest]; [discriminate|].
-    destruct o as [kd key0|kd key0|kd key0|kd p| |kd|kd]; cbv zeta.
+    destruct o as [kd key0|kd key0|kd key0|kd p| |kd|kd|kd key0]; cbv zeta.
     - rewrite (rel_lookup r sr kd key0 HR). destruct (s_find keq (smap sr kd) key0) as [e|] eqn:F.
       + intros H; inversion H; subst. eexists. split; [reflexivity|]. apply Rel_add_ret. exact HR.
       + destruct j; intros H; inversion H; subst; [eauto|].
@@ -260,13 +260,18 @@ Section Refine.
     - destruct (nth_error _ _) as [[kd' i]|] eqn:P; [|intros H; inversion H; subst; eauto].
       rewrite (R_band _ _ HR kd' i (plan_ix k _ _ _ _ P)).
       intros H. destruct (sweep_sim _ sr _ _ _ _ _ _ _ H) as [E ->]. eauto.
+    - rewrite (rel_lookup r sr kd key0 HR). destruct (s_find keq (smap sr kd) key0) as [e|] eqn:F.
+      + intros H; inversion H; subst. eexists. split; [reflexivity|]. apply Rel_add_ret. exact HR.
+      + destruct j; intros H; inversion H; subst; [eauto|].
+        rewrite <- (R_next _ _ HR). eexists. split; [reflexivity|]. apply Rel_add_ret. apply Rel_insert; [exact HR|].
+        rewrite (rel_lookup r sr kd key0 HR). exact F.
   Qed.
 
   Lemma sim_none r sr (l : local) : Rel r sr -> step r l = None -> sstep sr l = None.
   Proof.
     intros HR. unfold Model.step, Spec.sstep. destruct (pcl l) as [|j acc]; [discriminate|].
     destruct (todo l) as [|o rest]; [reflexivity|].
-    destruct o as [kd key0|kd key0|kd key0|kd p| |kd|kd]; cbv zeta.
+    destruct o as [kd key0|kd key0|kd key0|kd p| |kd|kd|kd key0]; cbv zeta.
     - destruct (find _ _); [discriminate|]. destruct j; discriminate.
     - discriminate.
     - destruct (find _ _); discriminate.
@@ -274,6 +279,7 @@ Section Refine.
     - destruct (nth_error _ _) as [[kd' i]|]; [|discriminate]. unfold sweep_next. destruct (Nat.ltb _ _); discriminate.
     - destruct (nth_error _ _) as [[kd' i]|]; [|discriminate]. unfold sweep_next. destruct (Nat.ltb _ _); discriminate.
     - destruct (nth_error _ _) as [[kd' i]|]; [|discriminate]. unfold sweep_next. destruct (Nat.ltb _ _); discriminate.
+    - destruct (find _ _); [discriminate|]. destruct j; discriminate.
   Qed.
 
   Lemma Rel_init : Rel (init_reg k) init_sreg.
